@@ -424,7 +424,11 @@ func edfChildBatch(pkts []*c16Pkt, stall time.Duration, r *Result, stop func(*c1
 
 // edfChildOnce returns the number of packets answered and, if the child did not finish, why ("died"/"timeout")
 func edfChildOnce(pkts []*c16Pkt, stall time.Duration, stop func(*c16Pkt) bool) (int, string, string) {
-	cmd := exec.Command(os.Args[0])
+	exe, err := os.Executable()
+	if err != nil {
+		exe = os.Args[0]
+	}
+	cmd := exec.Command(exe)
 	cmd.Env = append(os.Environ(), "VERIF_EDF_CHILD=1", "GOMEMLIMIT=512MiB", "GOTRACEBACK=single")
 	var in bytes.Buffer
 	for _, k := range pkts {
@@ -707,6 +711,13 @@ func c16HandBuilt(cfgs []*edfCfg, add func(kind string, cfg *edfCfg, p []byte)) 
 				_ = ei
 			}
 		}
+		// huge counts over elements of size zero, nothing after the descriptor: the type is built, nothing is allocated,
+		// the array decoder returns "end of data" at once (with a body it would iterate: listed, see the witnesses)
+		for _, n := range []uint32{1 << 28, 0xffffffff} {
+			for _, el := range [][]byte{arr0, sEmpty} {
+				add("descriptor.array-huge-empty-body", cfg, desc(cat([]byte{0x9e}, be32b(n), el)))
+			}
+		}
 		// nested arrays whose total size overflows (reflect.ArrayOf panics)
 		big := be32b(0xffffffff)
 		add("descriptor.array-overflow", cfg, desc(cat([]byte{0x9e}, big, []byte{0x9e}, big, []byte{0x9e}, big, []byte{0x97})))
@@ -744,9 +755,11 @@ func c16HandBuilt(cfgs []*edfCfg, add func(kind string, cfg *edfCfg, p []byte)) 
 		add("any-in-any", cfg, cat(bytes.Repeat([]byte{0x84}, 1500)))
 		add("any-in-any", cfg, desc([]byte{0x9d, 0x84}, []byte{0x9d}, be32b(1), []byte{0x84, 0x84, 0x91, 1}))
 		// deep descriptor
-		add("descriptor.deep", cfg, desc(cat(bytes.Repeat([]byte{0x9d}, 3500), []byte{0x96}), []byte{0xff}))
+		if cfg.Name == "off" {
+			add("descriptor.deep", cfg, desc(cat(bytes.Repeat([]byte{0x9d}, 3500), []byte{0x96}), []byte{0xff}))
+			add("descriptor.deep", cfg, desc(cat(bytes.Repeat([]byte{0x9f, 0x96}, 900), []byte{0x96}), []byte{0xff}))
+		}
 		add("descriptor.deep", cfg, desc(cat(bytes.Repeat([]byte{0x9d}, 300), []byte{0x96}), bytes.Repeat(cat([]byte{0x9d}, be32b(1)), 300), int8v))
-		add("descriptor.deep", cfg, desc(cat(bytes.Repeat([]byte{0x9f, 0x96}, 900), []byte{0x96}), []byte{0xff}))
 		// bool bytes other than 0/1 (only 1 is true), values compared
 		for _, b := range []byte{0, 1, 2, 3, 0x80, 0xfe, 0xff} {
 			add("bool-byte", cfg, []byte{0x91, b})
@@ -1163,7 +1176,7 @@ func c16Edf(c *Ctx) {
 	}
 	c16HandBuilt(cfgs, add)
 
-	bases := c.N(160, 2400)
+	bases := c.N(120, 2400)
 	perRound := 40
 	st := &c16State{expCap: c.N(1, 6)}
 	for b := 0; b < bases; {
@@ -1355,7 +1368,22 @@ func c16Round(c *Ctx, pre []string, pkts []*c16Pkt, disagree func(string, string
 	dbg("c16 round: in-process %d done at %v", len(inproc), time.Since(t0))
 	// ---- phase B': implementation, child processes ---------------------------------------------
 	if len(child) > 0 {
-		edfChildBatch(child, 20*time.Second, r, nil)
+		// several children side by side
+		const par = 4
+		var wg sync.WaitGroup
+		per := (len(child) + par - 1) / par
+		for lo := 0; lo < len(child); lo += per {
+			hi := lo + per
+			if hi > len(child) {
+				hi = len(child)
+			}
+			wg.Add(1)
+			go func(part []*c16Pkt) {
+				defer wg.Done()
+				edfChildBatch(part, 20*time.Second, r, nil)
+			}(child[lo:hi])
+		}
+		wg.Wait()
 		r.CountN("c16.child.packets", len(child))
 	}
 	dbg("c16 round: children %d done at %v", len(child), time.Since(t0))
@@ -1366,7 +1394,7 @@ func c16Round(c *Ctx, pre []string, pkts []*c16Pkt, disagree func(string, string
 				k.status = "skipped"
 			}
 		} else {
-			edfChildBatch(listed, 20*time.Second, r, func(k *c16Pkt) bool {
+			edfChildBatch(listed, 10*time.Second, r, func(k *c16Pkt) bool {
 				if k.expensiveRun() || k.status == "" {
 					st.expensive++
 					r.Count("c16.listed-region.expensive-packets-run")
@@ -1402,7 +1430,9 @@ func c16Round(c *Ctx, pre []string, pkts []*c16Pkt, disagree func(string, string
 			r.Count("c16.trunc-positions")
 		}
 		sh := k.shape
-		byArrays := sh.arrProd > 1 && (k.status == "died" || k.status == "timeout" || sh.arrProd*2048 >= k.alloc/2)
+		// explained by the declared array sizes (times the slice lengths the packet can pay for)
+		byArrays := sh.arrProd > 1 && (((k.status == "died" || k.status == "timeout") && sh.arrProd*uint64(len(k.p)) >= 1<<16) ||
+			(k.status != "died" && k.status != "timeout" && sh.arrProd*uint64(len(k.p)+1)*2048 >= k.alloc/2))
 		byRegCount := sh.regCnt > uint64(len(k.p)) && (k.status == "died" || k.status == "timeout" || sh.regCnt*64 >= k.alloc/2)
 		byNesting := sh.nest >= 256
 		// nested slices whose counts each pass the "count <= remaining bytes" check: MakeSlice per level (listed)
@@ -1433,7 +1463,7 @@ func c16Round(c *Ctx, pre []string, pkts []*c16Pkt, disagree func(string, string
 		case "timeout":
 			switch {
 			case byArrays:
-				violation("C16/edf-spin-array", "decoding did not return within 20 s (array descriptor with a huge count)", k)
+				violation("C16/edf-spin-array", "decoding did not return within the child's stall limit (array descriptor with a huge count)", k)
 			case byRegCount:
 				violation("C16/edf-alloc-regmap", "decoding did not return within 20 s (4-byte count behind edtReg of "+strconv.FormatUint(sh.regCnt, 10)+")", k)
 			default:
@@ -1575,7 +1605,7 @@ func c16Witnesses(c *Ctx, cfgs []*edfCfg, pre []string, disagree func(string, st
 		{0x82, 0x00, 0x06, 0x9e, 0x10, 0x00, 0x00, 0x00, 0x97},
 		{0x82, 0x00, 0x06, 0x9e, 0xff, 0xff, 0xff, 0xff, 0x97},
 		{0x82, 0x00, 0x0b, 0x9e, 0xff, 0xff, 0xff, 0xff, 0x9e, 0x00, 0x00, 0x00, 0x00, 0x94, 0x00},
-		desc(cat(bytes.Repeat([]byte{0x9d}, 8000), []byte{0x96}), []byte{0xff}),
+		desc(cat(bytes.Repeat([]byte{0x9d}, 5000), []byte{0x96}), []byte{0xff}),
 		cat(regName(tNMapSI), []byte{0x83, 0xff, 0xff, 0xff, 0xff}),
 		c16NestedSlices(1000),
 	}
@@ -1587,7 +1617,7 @@ func c16Witnesses(c *Ctx, cfgs []*edfCfg, pre []string, disagree func(string, st
 			defer wg.Done()
 			stall := 20 * time.Second
 			if i == 2 {
-				stall = 3 * time.Second
+				stall = 2 * time.Second
 			}
 			wr[i] = run(wp[i], stall)
 		}(i)
@@ -1646,20 +1676,20 @@ func c16Witnesses(c *Ctx, cfgs []*edfCfg, pre []string, disagree func(string, st
 	}
 	// CPU variant: [1<<32-1][0]int32 followed by one byte: 4·10^9 iterations that consume nothing
 	p = []byte{0x82, 0x00, 0x0b, 0x9e, 0xff, 0xff, 0xff, 0xff, 0x9e, 0x00, 0x00, 0x00, 0x00, 0x94, 0x00}
-	k = one(p, 3*time.Second)
-	if k.status == "timeout" || k.us > 3_000_000 {
-		r.Violation("C16/edf-spin-array", "15-byte packet with the descriptor [1<<32-1][0]int32 and one body byte: edf.Decode had not returned after 3 s (it iterates the declared count without consuming input)", rp(k))
+	k = one(p, 2*time.Second)
+	if k.status == "timeout" || k.us > 2_000_000 {
+		r.Violation("C16/edf-spin-array", "15-byte packet with the descriptor [1<<32-1][0]int32 and one body byte: edf.Decode had not returned after 2 s (it iterates the declared count without consuming input)", rp(k))
 	} else {
 		r.Note("C16 known-finding witness (spin over [1<<32-1][0]int32) no longer reproduces: %s after %d us", k.status, k.us)
 	}
 	// NEW (not on the list handed to this harness): a descriptor nesting n composite types makes reflect build n
 	// types whose names have length O(n) each: allocation (and time) quadratic in the packet length, and the types
 	// stay in reflect's cache for the life of the process
-	p = desc(cat(bytes.Repeat([]byte{0x9d}, 8000), []byte{0x96}), []byte{0xff})
+	p = desc(cat(bytes.Repeat([]byte{0x9d}, 5000), []byte{0x96}), []byte{0xff})
 	k = one(p, 20*time.Second)
-	if k.status == "died" || k.status == "timeout" || k.alloc >= 16*goAllocBound(len(p))/10 {
-		r.Violation("C16/edf-alloc-nested-descriptor", fmt.Sprintf("%d-byte packet whose descriptor nests 8000 slice types: child %s after %d ms, allocated %d bytes (bound %d); the cost is quadratic in the nesting depth (a 32 KiB descriptor exhausts a 4 GiB address space)", len(p), k.status, k.us/1000, k.alloc, goAllocBound(len(p))),
-			map[string]interface{}{"config": "off", "hex_rle": "82 1f41 9d*8000 96 ff"})
+	if k.status == "died" || k.status == "timeout" || k.alloc > goAllocBound(len(p)) {
+		r.Violation("C16/edf-alloc-nested-descriptor", fmt.Sprintf("%d-byte packet whose descriptor nests 5000 slice types: child %s after %d ms, allocated %d bytes (bound %d); the cost is quadratic in the nesting depth (a 32 KiB descriptor exhausts a 4 GiB address space)", len(p), k.status, k.us/1000, k.alloc, goAllocBound(len(p))),
+			map[string]interface{}{"config": "off", "hex_rle": "82 1389 9d*5000 96 ff"})
 	} else {
 		r.Note("C16 witness (nested descriptor) does not reproduce: %s, %d bytes", k.status, k.alloc)
 	}
@@ -1681,13 +1711,25 @@ func c16Witnesses(c *Ctx, cfgs []*edfCfg, pre []string, disagree func(string, st
 			disagree("K1 Edf.alloc ~ edf.Decode allocation", fmt.Sprintf("nested-slices witness: model predicts %d, implementation allocated %d", ma, k.alloc), k)
 		}
 	}
-	// registered map: MakeMapWithSize before the count check
+	// zero-width elements: []SEmpty with count 2 decodes when two more bytes follow, and then cannot be re-encoded
+	// into something that decodes (same defect as C11/zero-width-elements), in-process
+	p = cat(desc(cat([]byte{0x9d}, regName(tSEmpty)), []byte{0x9d}, be32b(2)), []byte{0, 0})
+	if v, _, err, _ := goDecode(p, off.Dec); err == nil && v != nil {
+		if st, _ := edfReencode(v, off); st == "rz" || st == "r-" {
+			r.Violation("C16/edf-reencode-zero-width", "[]SEmpty{{},{}} decoded from a packet with two trailing bytes re-encodes to bytes that edf.Decode refuses (count 2 > 0 bytes left)", map[string]interface{}{"config": "off", "hex": hex.EncodeToString(p)})
+		} else {
+			r.Note("C16 known-finding witness (re-encode of zero-width elements) no longer reproduces: %s", st)
+		}
+	} else {
+		r.Note("C16 known-finding witness (re-encode of zero-width elements): the packet no longer decodes: %v", err)
+	}
+	// FIXED (regression witness): the registered map decoder used to call MakeMapWithSize before the count check
 	p = cat(regName(tNMapSI), []byte{0x83, 0xff, 0xff, 0xff, 0xff})
 	k = one(p, 20*time.Second)
-	if k.status == "died" || k.status == "timeout" || k.alloc >= 64<<20 {
-		r.Violation("C16/edf-alloc-regmap", fmt.Sprintf("registered map NMapSI with the count 1<<32-1 and no entries: child %s, allocated %d bytes %s", k.status, k.alloc, clip(k.stderr, 160)), rp(k))
+	if k.status == "died" || k.status == "timeout" || k.status == "ok" || k.alloc > allocBound(len(p)) {
+		r.Violation("C16/edf-alloc-regmap", fmt.Sprintf("registered map NMapSI with the count 1<<32-1 and no entries must be refused at once: child %s, allocated %d bytes %s", k.status, k.alloc, clip(k.stderr, 160)), rp(k))
 	} else {
-		r.Note("C16 known-finding witness (registered map count) no longer reproduces: %s, %d bytes", k.status, k.alloc)
+		r.Count("c16.witness.fixed.regmap-count-refused")
 	}
 }
 
